@@ -405,7 +405,7 @@ def _cases(ctx, budget, for_oracle):
         for f1 in _single_faults(2, [e1], lost):
             for f2 in (rng.sample(_single_faults(2, ALL_ERRS, lost), 6)):
                 cases.append(_mk('transaction', 2, [f1, f2]))
-    for _ in range(ctx.scale(500, 8000) * budget):
+    for _ in range(ctx.scale(300, 8000) * budget):
         n = rng.randint(0, 4)
         k = rng.randint(1, 3)
         hist = [_random_fault(rng, n, TRANSIENT if (j < k - 1 and rng.random() < 0.8) else ALL_ERRS, lost) for j in range(k)]
